@@ -159,6 +159,58 @@ def enum_unit(tier):
             yield dict(kind='shipped', lib=L, keys=[g], counts=[1], extra=[], tf=[0.0, 0.5, 1.0])
 
 
+def enum_directions(tier):
+    """the directions in which the stored matrix is weakest: eigenvectors of its smallest eigenvalues, as count vectors (exact
+    and rounded to whole counts) - if the stored numbers are not a positive semi-definite matrix this is where the standard
+    error stops being a non-negative number"""
+    for L in shipped.UQ_LIBS:
+        basis, M = uq_raw(L)
+        w, V = np.linalg.eigh(0.5 * (M + M.T))
+        for k in range(3):
+            v = V[:, k] / np.abs(V[:, k]).max()
+            for scale, rnd in ((1.0, False), (12.0, True), (40.0, True)):
+                x = np.round(v * scale) if rnd else v * scale
+                keys = [b for b, c in zip(basis, x) if c != 0]
+                if keys:
+                    yield dict(kind='direction', lib=L, keys=keys, counts=[float(c) for c in x if c != 0], eig=float(w[k]))
+
+
+def check_direction(ctx, case):
+    L = case['lib']
+    lib = shipped.lib(L)
+    basis, M = uq_raw(L)
+    x = np.zeros(len(basis))
+    for k, c in zip(case['keys'], case['counts']):
+        x[basis.index(k)] = c
+    q = float(x @ M @ x)
+    ctx.case(nontrivial=True, key=['direction', L, case['keys'], case['counts']], sample=dict(library=L, smallest_eigenvalue=case['eig'], xMx=q, nonzero=len(case['keys'])))
+    ctx.event('direction:%s' % L)
+    try:
+        est = lib.Estimate(dict(zip(case['keys'], case['counts'])), 'thermochem')
+    except Exception as e:
+        ctx.fail('estimate-raises:%s' % type(e).__name__, '[%s] Estimate along a weak direction raised %s: %s' % (L, type(e).__name__, e))
+        return
+    rmse = lib.uq_contents['RMSE'].thermochem
+    for X in PROPS:
+        T = 500.0
+        with warnings.catch_warnings():
+            warnings.simplefilter('ignore')
+            try:
+                got = getattr(est, 'get_%s_SE' % X)(T)
+            except Exception as e:
+                ctx.fail('SE-raises:%s' % type(e).__name__, '[%s] get_%s_SE(%r) raised %s: %s' % (L, X, T, type(e).__name__, e))
+                return
+        ctx.count()
+        if not (isinstance(got, float) and got >= 0 and math.isfinite(got)):
+            ctx.fail('SE-negative-or-nonfinite', '[%s] get_%s_SE(%r) = %r along the eigenvector of the stored matrix\'s eigenvalue %g (x\'Mx = %g over %d descriptors)'
+                     % (L, X, T, got, case['eig'], q, len(case['keys'])))
+            return
+        want = abs(quiet(getattr(rmse, 'get_' + X), T)) * math.sqrt(max(q, 0.0))
+        if abs(got - want) > 1e-8 * abs(want) + 1e-100:
+            ctx.fail('SE-not-the-quadratic-form:%s' % X, '[%s] get_%s_SE(%r) = %r, |RMSE|*sqrt(x\'Mx) = %r along a weak direction' % (L, X, T, got, want))
+            return
+
+
 @st.composite
 def shipped_case(draw):
     L = draw(st.sampled_from(shipped.UQ_LIBS))
@@ -252,6 +304,27 @@ def check_synthetic(ctx, case):
     Ts = [150.0 + 1500.0 * f for f in case['tf']]
     ctx.event('library:synthetic')
     core(ctx, lib, basis, M, rmse, keys, case['counts'], case['extra'], Ts, 'synthetic', list(reversed(keys)))
+    # uncertainty data belong to the library object that was given them: one assembled from this library by the constructor and
+    # Update() answers alike; one built from the same groups WITHOUT an uncertainty block has no standard errors to give
+    from pgradd.GroupAdd.Library import GroupLibrary
+    try:
+        a = GroupLibrary(None)
+        a.Update(lib)
+        b = GroupLibrary(None, {k: dict(lib[k]) for k in lib})
+    except Exception as e:
+        ctx.fail('assembly-raises:%s' % type(e).__name__, 'GroupLibrary(None).Update(library with uncertainty data) raised %s: %s' % (type(e).__name__, e))
+        return
+    ctx.count()
+    ctx.event('synthetic:assembled-and-plain-siblings')
+    if not case['extra']:
+        core(ctx, a, basis, M, rmse, keys, case['counts'], [], Ts[:1], 'synthetic (assembled by constructor + Update)', list(reversed(keys)))
+    try:
+        eb = b.Estimate(dict(zip(keys, case['counts'])), 'thermochem')
+        vb = eb.get_HoRT_SE(Ts[0])
+    except Exception:
+        return
+    ctx.fail('standard-error-from-a-library-without-uncertainty-data', 'a library built from the same groups without an uncertainty block returned get_HoRT_SE = %r '
+             '(after another library object had been given uncertainty data)' % (vb,))
 
 
 def TG_dummy():
@@ -259,11 +332,12 @@ def TG_dummy():
 
 
 def check_any(ctx, case):
-    return {'shipped': check_shipped, 'synthetic': check_synthetic}[case['kind']](ctx, case)
+    return {'shipped': check_shipped, 'synthetic': check_synthetic, 'direction': check_direction}[case['kind']](ctx, case)
 
 
 FAMILIES = [
     Family('unit-vectors', check_any, enumerate=enum_unit),
+    Family('weakest-directions', check_any, enumerate=enum_directions),
     Family('shipped', check_any, strategy=lambda tier: shipped_case(), n=(2500, 100000)),
     Family('synthetic', check_any, strategy=lambda tier: synthetic_case(), n=(2000, 80000)),
 ]
